@@ -556,6 +556,8 @@ def adaptShapeModelled : List (String × String) := [
   ("keep-if", "not seen_domains & {'', 'ai.onnx'}"),
   ("convert-if", "source_version != target_version"),
   ("convert-call", "onnx.version_converter.convert_version(node.model, target_version)"),
+  ("convert-step", "_initializers_to_constants(target_model.graph)"),
+  ("helper:_initializers_to_constants", "def _initializers_to_constants(graph: onnx.GraphProto) -> None:\n    input_names = {i.name for i in graph.input}\n    constants = [onnx.helper.make_node('Constant', [], [init.name], value=init) for init in graph.initializer if init.name not in input_names]\n    if not constants:\n        return\n    nodes = constants + list(graph.node)\n    del graph.initializer[:]\n    del graph.node[:]\n    graph.node.extend(nodes)"),
   ("return-unconverted", "line-order 0"),
   ("return-unconverted", "line-order 1"),
   ("returns", "3"),
@@ -578,12 +580,37 @@ def inlineMembersModelled : List String := [
 def freshCtx (c : Ctx) (varNames : List String) : Ctx :=
   { c with var := ⟨varNames, []⟩, node := ⟨[c.nodeName], []⟩ }
 
+/-- `_adapt._initializers_to_constants(target_model.graph)`: the converter may turn former attributes
+    (`pads` of Pad-10) into graph initializers; those that are not inputs become leading `Constant`
+    nodes and ALL initializers are dropped - unless there is no such constant, then nothing happens
+    (initializers named like inputs would stay and make `to_onnx` raise BuildError) -/
+def initsToConstants (g : Graph) : Graph :=
+  if preamble g = [] then g else .mk g.inputs [] (preamble g ++ g.nodes) g.outputs g.valueInfo
+
+/-- what `adapt_sem` / `inline_correct` assume of `onnx.version_converter.convert_version(·, target)`
+    (third party), on the normalised private copy `g` and for the operator semantics at hand:
+    the signature is kept, the node list assigns no input name, no initializer it introduces is
+    named like an input, and the converted model computes what `g` computes -/
+structure ConverterContract {V : Type} (sem : OpSem V) (lit : Lit → V) (conv : Graph → Graph) (g : Graph) : Prop where
+  inputs : (conv g).inputs = g.inputs
+  outputs : (conv g).outputs = g.outputs
+  ssa : ∀ x ∈ Node.assignedL (conv g).nodes, x ∉ g.inputs
+  inits : ∀ p ∈ (conv g).inits, g.inputs.contains p.1 = false
+  meaning : ∀ vals, evalModel sem lit (conv g) vals = evalModel sem lit g vals
+
+/-- the decidable part of the contract, evaluated by the driver on the converter's ACTUAL result of every
+    correspondence case (`contract` in the answer; the harness reports a converted case where it is false) -/
+def contractCheck (h g : Graph) : Bool :=
+  h.inputs == g.inputs && h.outputs == g.outputs &&
+  (Node.assignedL h.nodes).all (fun x => !g.inputs.contains x) &&
+  h.inits.all (fun p => !g.inputs.contains p.1)
+
 /-- `adapt_inline`; `conv` is `onnx.version_converter.convert_version(·, target)` on the private
     (normalised) copy, `first` what `to_onnx` emitted during the build -/
 def adaptInline (conv : Graph → Graph) (c : Ctx) (varNames : List String) (g : Graph)
     (first : List Node) (defaultImports : List Nat) (target : Nat) : Except Err (List Node) :=
   if needsConversion (first.map fun n => n.op.domain) defaultImports target then
-    match toOnnx (freshCtx c varNames) (conv g) with
+    match toOnnx (freshCtx c varNames) (initsToConstants (conv g)) with
     | .ok em => .ok em.nodes
     | .error e => .error e
   else .ok first
